@@ -238,7 +238,7 @@ def precondition_at_callers(ctx, taint, body, atom, val):
 STICKY_ERR_ITER = {"goblin::elf::note::NoteDataIterator": "does not advance past an unparsable note: it yields Err for ever"}
 ITER_ADAPTORS = {"Map": 1, "Filter": 1, "FilterMap": 1, "Flatten": 1, "FlatMap": 1, "Enumerate": 1, "Zip": 2, "Rev": 1, "Skip": 1, "Take": 1, "Chain": 2,
                  "Peekable": 1, "Copied": 1, "Cloned": 1, "TakeWhile": 1, "SkipWhile": 1, "StepBy": 1, "Fuse": 1, "Inspect": 1, "MapWhile": 1, "Scan": 1}
-FINITE_BASE = ("std::slice::", "std::vec::IntoIter", "std::vec::Drain", "std::ops::Range", "std::str::", "std::fs::ReadDir", "std::io::Lines", "std::collections::",
+FINITE_BASE = ("std::slice::", "std::vec::IntoIter", "std::vec::Drain", "std::ops::Range", "std::str::", "std::fs::ReadDir", "std::io::Lines", "std::io::Split", "std::collections::",
                "std::option::", "std::result::", "std::array::IntoIter", "std::char::", "std::path::", "std::env::", "procfs_core::process::MemoryMaps",
                "std::string::Drain", "std::iter::Once", "std::iter::Empty", "std::ffi::")
 CONSUMERS = {"find", "find_map", "position", "rposition", "any", "all", "count", "last", "nth", "fold", "try_fold", "for_each", "try_for_each", "collect", "sum",
@@ -333,7 +333,7 @@ def rule_internal_iteration(ctx, taint, rule="C02/internal-iteration", scope=Non
 # ------------------------------------------------------------------------------------ loops
 FINITE_ITER = ("std::slice::Iter<", "std::slice::IterMut<", "std::iter::Enumerate<", "std::iter::Map<", "std::iter::Filter<", "std::iter::Chain<",
                "std::vec::IntoIter<", "std::ops::Range<", "std::ops::RangeInclusive<", "std::slice::ChunksExactMut<", "std::slice::ChunksExact<",
-               "std::slice::RChunksExactMut<", "std::slice::SplitN<", "std::str::Split<", "std::io::Lines<", "std::fs::ReadDir",
+               "std::slice::RChunksExactMut<", "std::slice::SplitN<", "std::str::Split<", "std::io::Lines<", "std::io::Split<", "std::fs::ReadDir",
                "std::iter::range::<impl std::iter::Iterator for std::ops::Range", "&mut I", "procfs_core::process::MemoryMaps", "std::iter::Rev<", "std::str::CharIndices")
 LOCAL_FINITE_ITER = {
     "<linux::auxv::reader::ProcfsAuxvIter as std::iter::Iterator>::next": "yields until AT_NULL / EOF / first error of a finite procfs file (keep_going is cleared before each item)",
